@@ -152,6 +152,15 @@ pub fn run(rep: &mut Report, which0: Which, block_dev: bool) {
                 } else if sc.prior.is_some() {
                     extra.push("--force-create".into());
                 }
+                // the number of chunks in flight rotates through 1 / 2 (default of the legs) / 7
+                match sci % 3 {
+                    0 => extra.extend(["--buffered-chunks".to_string(), "1".to_string()]),
+                    1 => extra.extend(["--buffered-chunks".to_string(), "7".to_string()]),
+                    _ => {}
+                }
+                if use_http && sci % 40 == 19 {
+                    extra.extend(["--http-header".to_string(), "X-Verif: one".to_string(), "--http-header".to_string(), "Authorization: Bearer abc".to_string()]);
+                }
                 let archive_arg = if use_http {
                     // every 40th HTTP scenario: the bodies are flushed byte by byte (no failure involved)
                     let splits: Vec<usize> = if sci % 40 == 3 { (1..40).collect() } else { vec![] };
